@@ -164,7 +164,7 @@ func hostilePaths(r *rand.Rand, pattern string) []string {
 }
 
 func runC13(e *Env) {
-	e.Rule = "(a) rejection by construction: definitions invalid for exactly one stated reason (nil handler via GET/Add/AddRoute/Any-in-group; method list empty after trimming; unknown method tokens incl. prefixes and comma lists; capturing group in a variable regex in first/second/optional position; optional part not at the end; uncompilable regex; >= 63 handlers via variadic middleware, Route.Use, group middleware, Router.Use inside a group and combinations incl. a pre-built route added inside a group; WithOptions after a route exists) must panic at registration, and their valid neighbours (62 handlers, case variants of methods, non-capturing groups) must be accepted. (b) totality after acceptance: fuzzed pattern strings (random over a metacharacter alphabet, and mutations of valid patterns), fuzzed method lists, handler counts 0..70, all option combinations incl. caching on a router without routes and InterceptAll; whatever registration accepts is probed with Match, QuickMatch and ServeHTTP over hostile methods and paths (empty, blank, non-UTF-8, 4 KiB, derived from the pattern): no panic out of the router. Non-trivial: every bad definition; every accepted fuzzed definition containing a metacharacter; distinct by definition. Handler counts up to 512; a quarter of the fuzzed definitions are registered for all nine methods; request methods outside the nine."
+	e.Rule = "(a) rejection by construction: definitions invalid for exactly one stated reason (nil handler via GET/Add/AddRoute/Any-in-group; method list empty after trimming; unknown method tokens incl. prefixes and comma lists; capturing group in a variable regex in first/second/optional position; optional part not at the end; uncompilable regex; >= 63 handlers via variadic middleware, Route.Use, group middleware, Router.Use inside a group and combinations incl. a pre-built route added inside a group; WithOptions after a route exists) must panic at registration, and their valid neighbours (62 handlers, case variants of methods, non-capturing groups) must be accepted. (b) totality after acceptance: fuzzed pattern strings (random over a metacharacter alphabet, and mutations of valid patterns), fuzzed method lists, handler counts 0..70, all option combinations incl. caching on a router without routes and InterceptAll; whatever registration accepts is probed with Match, QuickMatch and ServeHTTP over hostile methods and paths (empty, blank, non-UTF-8, 4 KiB, derived from the pattern): no panic out of the router. Non-trivial: every bad definition; every accepted fuzzed definition containing a metacharacter; distinct by definition. Handler counts up to 512; a quarter of the fuzzed definitions are registered for all nine methods; request methods outside the nine. A sixth of the totality cases register their route through an application-defined option function at a random position of the list given to New (the options behind it meet a router that already has a route)."
 	e.Assumptions = []string{
 		"the handler limit is the per-route limit the registration code documents (group + route middleware); global middleware added with Router.Use at top level is not counted by it",
 		"a panic with any message counts as rejection",
@@ -247,7 +247,30 @@ func runC13(e *Env) {
 		})
 		t.AutoSample()
 		var router *rux.Router
-		if chance(r, 1, 3) {
+		regViaOption := !noRoutes && chance(r, 1, 6)
+		if regViaOption {
+			// the application registers its routes through an option function of its own, somewhere in
+			// the list handed to New: the options behind it are applied to a router that has a route
+			k := r.IntN(len(opts) + 1)
+			optDesc = append(optDesc, fmt.Sprintf("(the route is registered by an application-defined option at position %d of the list given to New)", k))
+			regOpt := func(rt *rux.Router) {
+				reg := func() { rt.Add(pattern, func(c *rux.Context) {}, methods...).Use(nHandlers(nh)...) }
+				if inGroup != "" {
+					rt.Group(inGroup, reg)
+					return
+				}
+				reg()
+			}
+			all := append(append(append([]func(*rux.Router){}, opts[:k]...), regOpt), opts[k:]...)
+			t.Count("totality.route_registered_by_an_option", 1)
+			t.Count("totality.definitions", 1)
+			if _, panicked := catch(func() { router = rux.New(all...) }); panicked || router == nil {
+				t.Count("totality.rejected", 1)
+				return // refused at construction: there is no router to look anything up on
+			}
+			t.Count("totality.accepted", 1)
+			t.NonTrivial(pattern + fmt.Sprint(methods, nh, optDesc, inGroup))
+		} else if chance(r, 1, 3) {
 			// the same options applied after construction (legal while no route exists)
 			router = rux.New()
 			router.WithOptions(opts...)
@@ -256,8 +279,9 @@ func runC13(e *Env) {
 		} else {
 			router = rux.New(opts...)
 		}
-		accepted := false
-		if !noRoutes {
+		accepted := regViaOption
+		if regViaOption {
+		} else if !noRoutes {
 			reg := func() { router.Add(pattern, func(c *rux.Context) {}, methods...).Use(nHandlers(nh)...) }
 			if inGroup != "" {
 				inner := reg
@@ -309,6 +333,7 @@ func runC13(e *Env) {
 	e.Require("valid_neighbours.accepted", 50)
 	e.Require("totality.router_without_routes", 300)
 	e.Require("totality.options_after_new", 1000)
+	e.Require("totality.route_registered_by_an_option", 500)
 	if e.replay == nil {
 		acc, defs := e.Counter("totality.accepted"), e.Counter("totality.definitions")
 		if defs > 0 && acc*5 < defs {
